@@ -69,9 +69,12 @@ EDITS = [
     return Reference{ EntityRef{ std::string{ tokens.at(EntityRef::TR_ENTITY) }, std::move(form) } };
   }
   case ReferenceType::collaboration: {
+    const auto offset = stoi(std::string{ tokens.at(CollaborationRef::CR_OFFSET) });
+    if (offset < std::numeric_limits<int16_t>::min() || offset > std::numeric_limits<int16_t>::max()) {
+      return {};
+    }
     return Reference{ 
-      CollaborationRef{ std::string{ tokens.at(CollaborationRef::CR_TEXT) },
-      static_cast<int16_t>(stoi(std::string{ tokens.at(CollaborationRef::CR_OFFSET) })) } 
+      CollaborationRef{ std::string{ tokens.at(CollaborationRef::CR_TEXT) }, static_cast<int16_t>(offset) }
     };
   }
   default:
@@ -84,9 +87,13 @@ EDITS = [
     return Reference{ EntityRef{ std::string{ tokens.at(EntityRef::TR_ENTITY) }, std::move(form) } };
   }
   if (type == ReferenceType::collaboration) {
+    const auto offset = stoi(std::string{ tokens.at(CollaborationRef::CR_OFFSET) });
+    const auto fits = offset >= std::numeric_limits<int16_t>::min() && offset <= std::numeric_limits<int16_t>::max();
+    if (!fits) {
+      return {};
+    }
     return Reference{ 
-      CollaborationRef{ std::string{ tokens.at(CollaborationRef::CR_TEXT) },
-      static_cast<int16_t>(stoi(std::string{ tokens.at(CollaborationRef::CR_OFFSET) })) } 
+      CollaborationRef{ std::string{ tokens.at(CollaborationRef::CR_TEXT) }, static_cast<int16_t>(offset) }
     };
   }
   return {};'''),
@@ -172,6 +179,28 @@ CGraph::UnorderedItems CGraph::ExpandInputs''', '''  UnorderedItems result{};
 }
 
 CGraph::UnorderedItems CGraph::ExpandInputs'''),
+ ('ccl/rslang/src/ASTNormalizer.cpp', 'set-builder normalised through the shared helper', '''  // Note: domain expression is not in the scope of declared variables
+  const auto newName = ProcessTupleDeclaration(root(0));
+  SubstituteTupleVariables(root(2), newName);
+}''', '''  // Note: domain expression is not in the scope of declared variables
+  TupleDeclaration(root(0), root(2));
+}'''),
+ ('ccl/rslang/src/TypeAuditor.cpp', 'argument recorded through a named temporary', '''  functionArgs.emplace_back(iter(0).data.ToText(), domain.value());
+  return SetCurrent(LogicT{});''', '''  const auto& argumentName = iter(0).data.ToText();
+  const auto& argumentType = domain.value();
+  functionArgs.emplace_back(argumentName, argumentType);
+  return SetCurrent(LogicT{});'''),
+ ('ccl/core/src/semantic/schema/Schema.cpp', 'closure reset written with an index-free helper loop after computing the order', '''  const auto expansion = Graph().ExpandOutputs({ target });
+  for (const auto dependant : expansion) { // Note: members of a dependency loop should not see outdated results of each other
+    info.at(dependant).Reset();
+  }
+  ParseCst(target);
+  const auto orderedList = Graph().Sort(expansion);''', '''  const auto expansion = Graph().ExpandOutputs({ target });
+  const auto orderedList = Graph().Sort(expansion);
+  for (const auto dependant : expansion) { // Note: members of a dependency loop should not see outdated results of each other
+    info.at(dependant).Reset();
+  }
+  ParseCst(target);'''),
 ]
 
 
